@@ -42,6 +42,8 @@ import (
 //	          round 3:  M<k><v> QueryIds `<nested map key k> = "s<v>"` (c18MapKeys: tags.site.name, tags.site.zone, tags.owner.name, tags.a.b.c,
 //	          attrs.a.b.c, attrs.a.x.c, attrs.site.name, attrs.owner.name; tags registered with AddMapSymbol under ext/meta, attrs under ext/meta/deep)
 //	          I<ka><kb><id> A := GetSymbol(key ka), B := GetSymbol(key kb), then A.Eval and B.Eval on row a<id>, decoded
+//	          round 5:  FA<j> FindMatching / JA<j> IteratorMatchingAllOf / FO<j> FindMatchingAnyOf / JO<j> IteratorMatchingAnyOf on the roles set index
+//	          with values slice number j (c18SharedVals), the SAME slice object for every reader; answer = 1|0 (caller's slice unchanged?) then the ids
 //	cr <readers> <iters> <seed> <kind,kind,..> <tx> <tx> ...
 //	    the transactions are committed first (serially); then the harness evaluates, in one read transaction, every query of the
 //	    listed kinds (token s.0, the serial baseline); then <readers> goroutines, released together, each run <iters> read
@@ -50,7 +52,7 @@ import (
 //	    verdict is the Lean driver's: every recorded answer = model on the tagged version.
 //	race <scenario> <goroutines> <iters>       concurrent use of the helpers; prints "done" (or "wrong:<what>");
 //	    the interesting output is the Go race detector's report when the harness is built with -race
-//	    scenarios: parse getsymbol errors query extsym emptyfilter mapsym debugparse sharedquery
+//	    scenarios: parse getsymbol errors query extsym emptyfilter mapsym debugparse argslice sharedquery
 func init() {
 	register("c18", &propHarness{gen: c18Gen, exec: c18Exec})
 	logrus.SetLevel(logrus.PanicLevel)
@@ -151,8 +153,15 @@ type c18Env struct {
 	idxRoles boltz.SetReadIndex
 	links    boltz.LinkCollection
 	members  boltz.EntitySetSymbol
-	even     boltz.EntitySymbol // externally computed: id a<n> -> n even
-	ext      boltz.EntitySymbol // externally computed: id a<n> -> nil if n%4 == 3, else "x<n%3>"
+	// round 5: values slices of set-index lookups, ONE slice object per entry shared by every reader of the case
+	sharedVals [][]string
+	even       boltz.EntitySymbol // externally computed: id a<n> -> n even
+	ext        boltz.EntitySymbol // externally computed: id a<n> -> nil if n%4 == 3, else "x<n%3>"
+}
+
+// the pristine contents of the shared values slices (= sharedVals in C18/Store.lean): not ascending, a duplicate, single, empty
+var c18SharedVals = [][]string{
+	{"r2", "r0"}, {"r1", "r0"}, {"r2", "r1", "r0"}, {"r3", "r0", "r1"}, {"r4", "r2", "r0", "r1"}, {"r1"}, {"r2", "r0", "r2"}, {},
 }
 
 func c18IdNum(id string) int {
@@ -200,6 +209,9 @@ func c18Open() (*c18Env, error) {
 	e.idxRoles = e.things.AddSetIndex(symRoles)
 	symGroups := e.things.AddFkSetSymbol("groups", e.groups)
 
+	for _, v := range c18SharedVals {
+		e.sharedVals = append(e.sharedVals, append([]string{}, v...))
+	}
 	e.things.AddMapSymbol("tags", ast.NodeTypeAnyType, "tags", "ext", "meta")
 	e.things.AddMapSymbol("attrs", ast.NodeTypeAnyType, "attrs", "ext", "meta", "deep")
 	e.even = boltz.NewBoolFuncSymbol(e.things, "even", func(id string) bool {
@@ -376,6 +388,42 @@ func (e *c18Env) observe(tx *bbolt.Tx, q string) string {
 		return query(fmt.Sprintf(`even = %v and rank >= %d`, arg/10 == 1, arg%10))
 	case "Y":
 		return query(fmt.Sprintf(`ext = "x%d"`, arg))
+	case "FA", "FO", "JA", "JO":
+		// a read-only set-index lookup with a values slice other read transactions are using too; the first number of the
+		// answer says whether the caller's slice still holds what it held (post-condition of a read API)
+		if arg >= len(e.sharedVals) {
+			return "bad-q"
+		}
+		vals := e.sharedVals[arg]
+		var ids []string
+		switch kind {
+		case "FA":
+			ids = e.things.FindMatching(tx, e.idxRoles, vals)
+		case "FO":
+			ids = e.things.FindMatchingAnyOf(tx, e.idxRoles, vals)
+			sort.Strings(ids)
+		default:
+			provider := e.things.IteratorMatchingAllOf(e.idxRoles, vals)
+			if kind == "JO" {
+				provider = e.things.IteratorMatchingAnyOf(e.idxRoles, vals)
+			}
+			for c := provider(tx, true); c.IsValid(); c.Next() {
+				ids = append(ids, string(c.Current()))
+			}
+		}
+		unchanged := "1"
+		for i, v := range c18SharedVals[arg] {
+			if vals[i] != v {
+				unchanged = "0"
+			}
+		}
+		if unchanged == "0" {
+			copy(vals, c18SharedVals[arg]) // put it back, so that every later call starts from the caller's contents again
+		}
+		if len(ids) == 0 {
+			return unchanged
+		}
+		return unchanged + "." + c18IdNums(ids)
 	case "M":
 		if arg/10 >= len(c18MapKeys) {
 			return "bad-q"
@@ -474,7 +522,7 @@ func (e *c18Env) observe(tx *bbolt.Tx, q string) string {
 	return "bad-q"
 }
 
-var c18QKinds = []string{"N", "K", "R", "G", "H", "T", "iN", "iR", "lG", "lM", "E", "A", "P", "Q", "X", "Z", "Y", "V", "W", "M", "M", "I"}
+var c18QKinds = []string{"FA", "FO", "JA", "JO", "N", "K", "R", "G", "H", "T", "iN", "iR", "lG", "lM", "E", "A", "P", "Q", "X", "Z", "Y", "V", "W", "M", "M", "I"}
 
 var c18MvIds = []int{0, 1, 2, 3, 4, 5}
 
@@ -526,6 +574,8 @@ func c18Args(kind string, ids []int) []int {
 				r = append(r, b*10+k)
 			}
 		}
+	case "FA", "FO", "JA", "JO":
+		return c18Range(0, len(c18SharedVals)-1)
 	case "M":
 		for k := range c18MapKeys {
 			for v := 0; v < 3; v++ {
@@ -849,6 +899,12 @@ func c18Race(scenario string, goroutines, iters int) string {
 				return err
 			}
 		}
+		// rows with many roles, for the all-of lookups
+		for _, op := range []string{"p4.40.4.0+1+2", "p5.50.5.0+1+2+3+4"} {
+			if err := e.applyOp(ctx, op); err != nil {
+				return err
+			}
+		}
 		return nil
 	})
 	var wrong atomic.Value
@@ -908,9 +964,9 @@ func c18Race(scenario string, goroutines, iters int) string {
 	}
 	// serial answers of the queries the read-only scenarios use (data is fixed: no writer in those scenarios)
 	extExpected := map[string]string{}
-	if scenario == "extsym" || scenario == "emptyfilter" || scenario == "mapsym" {
+	if scenario == "extsym" || scenario == "emptyfilter" || scenario == "mapsym" || scenario == "argslice" {
 		_ = e.db.View(func(tx *bbolt.Tx) error {
-			for _, k := range []string{"X", "Y", "Z", "P", "A", "M"} {
+			for _, k := range []string{"X", "Y", "Z", "P", "A", "M", "FA", "FO", "JA", "JO"} {
 				for _, a := range c18Args(k, c18MvIds) {
 					// P / A answers computed from a query that is never paged by anybody: rank >= 0 matches every row
 					q := k + strconv.Itoa(a)
@@ -1015,6 +1071,15 @@ func c18Race(scenario string, goroutines, iters int) string {
 						}
 						return nil
 					})
+				case "argslice":
+					// set-index lookups from many read transactions with the same values slices
+					_ = e.db.View(func(tx *bbolt.Tx) error {
+						q := []string{"JA", "FA", "JO", "FO"}[(g+i)%4] + strconv.Itoa((g/2+i)%len(c18SharedVals))
+						if a := e.observe(tx, q); a != extExpected[q] {
+							wrong.Store("argslice:" + q + "=" + a + "_serial:" + extExpected[q])
+						}
+						return nil
+					})
 				case "mapsym":
 					// every reader filters on another nested key of the two map symbols: resolution and evaluation interleave
 					_ = e.db.View(func(tx *bbolt.Tx) error {
@@ -1088,10 +1153,10 @@ func c18GenTx(r *rng, gen []int) string {
 		switch x := r.intn(10); {
 		case x < 6:
 			gen[id] = (gen[id] + 1) % 3
-			nr := r.intn(3)
+			nr := r.intn(5)
 			var roles []string
 			for j := 0; j < nr; j++ {
-				roles = append(roles, strconv.Itoa(r.intn(3)))
+				roles = append(roles, strconv.Itoa(r.intn(5)))
 			}
 			ops = append(ops, fmt.Sprintf("p%d.%d.%d.%s", id, id*10+gen[id], r.intn(6), strings.Join(roles, "+")))
 		case x < 8:
@@ -1114,7 +1179,7 @@ func c18GenTx(r *rng, gen []int) string {
 
 // the query kinds the readers of one cr case concentrate on (collisions need the same symbol / object at the same moment)
 var c18Focus = [][]string{
-	{"M"}, {"M", "I", "K"}, {"X", "Z"}, {"X", "Y", "V"}, {"A", "P"}, {"A", "P", "Q", "K"}, {"Y", "W", "Z"}, {"R", "H", "G"}, {"T", "K", "Q"}, {"N", "iN", "E", "lG", "lM", "iR"},
+	{"JA", "FA"}, {"JA", "JO", "FA", "FO", "iR"}, {"M"}, {"M", "I", "K"}, {"X", "Z"}, {"X", "Y", "V"}, {"A", "P"}, {"A", "P", "Q", "K"}, {"Y", "W", "Z"}, {"R", "H", "G"}, {"T", "K", "Q"}, {"N", "iN", "E", "lG", "lM", "iR"},
 }
 
 func c18GenCr(r *rng, focus []string, iters int) string {
@@ -1127,10 +1192,10 @@ func c18GenCr(r *rng, focus []string, iters int) string {
 		var ops []string
 		for j := i; j < i+12 && j < len(ids); j++ {
 			id := ids[j]
-			nr := r.intn(3)
+			nr := r.intn(5)
 			var roles []string
 			for k := 0; k < nr; k++ {
-				roles = append(roles, strconv.Itoa(r.intn(3)))
+				roles = append(roles, strconv.Itoa(r.intn(5)))
 			}
 			ops = append(ops, fmt.Sprintf("p%d.%d.%d.%s", id, id*10, r.intn(6), strings.Join(roles, "+")))
 		}
@@ -1197,7 +1262,7 @@ func c18Gen(tier string, seed uint64, out *bufio.Writer) {
 	if tier == "thorough" {
 		it = 3000
 	}
-	for _, sc := range []string{"parse", "getsymbol", "errors", "query", "extsym", "emptyfilter", "mapsym", "debugparse"} {
+	for _, sc := range []string{"parse", "getsymbol", "errors", "query", "extsym", "emptyfilter", "mapsym", "debugparse", "argslice"} {
 		fmt.Fprintf(out, "race %s %d %d\n", sc, 6, it)
 	}
 }
